@@ -766,10 +766,11 @@ class HfProtocol(utils.EventEmitter):
             self.read_buffer = self.read_buffer[trailer + 2 :]
             try:
                 response = AtResponse.parse_from(raw_response)
+                logger.debug(f"<<< {raw_response.decode()}")
             except ValueError:
+                # (the parameters may hold bytes that are not UTF-8)
                 logger.warning('Invalid response line %r', bytes(raw_response))
                 continue
-            logger.debug(f"<<< {raw_response.decode()}")
 
             # Forward the received code to the correct queue.
             if self.pending_command and (
